@@ -64,7 +64,7 @@ def fromNodes {ρ : Type} (q : Quant) (nodes : List Nat) : Prog ρ Val :=
   | .one =>
     match nodes with
     | n :: _ => pure (.syn n)
-    | [] => panicAt "from_nodes:missing capture"
+    | [] => throwK .undefinedCapture   -- repaired: `Capture::evaluate` checks before `Value::from_nodes`, whose `expect("missing capture")` panicked
   | .zeroOrMore | .oneOrMore => pure (.list (nodes.map .syn))
   | .zeroOrOne =>
     match nodes with
